@@ -575,7 +575,7 @@ func genCase(r *rand.Rand) Case {
 				c.Text = gen.EditText(r, c.Text)
 			}
 		}
-		c.FileName = core.Pick(r, []string{"s.num", "with space.num", "dir.with.dots.num", "ünï.num", "100%.num", "a%sb%d.num"})
+		c.FileName = core.Pick(r, []string{"s.num", "with space.num", "dir.with.dots.num", "ünï.num", "100%.num", "a%sb%d.num", "invoice[1].num", "back\\slash.num", "star*.num", "q?.num", "a[.num", "{x,y}.num", "~tilde.num", "x-dash-.num"})
 		c.AbsPath = r.IntN(2) == 0
 		return c
 	}
